@@ -6,6 +6,8 @@ import JSight.C02TextThm
 import JSight.AnnotExamples
 import JSight.C02TextThm2
 import JSight.C02TextGrammar2
+import JSight.AnnotQExamples
+import JSight.ScalarItemsBridge
 /-!
 # C02 — Scalar rules admit exactly the values their definitions describe (decision logic)
 
@@ -638,5 +640,177 @@ example : closed (bs "\"b\"") [(bs "enum", bs "[\"a\", \"b\"]"), (bs "const", bs
   simp only [h2, if_true]
 
 end TextLevel
+
+end Props.C02
+
+namespace Props.C02
+open Lay SchemaScan C02T
+
+/-! ## fourth part: quoted names and `enum` on TEXTS — the three statements of the third part, proved
+
+Scanner model + loader model on the EXTENDED grammar (`Lay.GObj`): modules `AnnotQStep` / `AnnotQRun` / `AnnotQList` /
+`AnnotQObj` (the run lemmas of the annotation at configurations that carry the scanner's `boundaryQuote` flag; a list
+value `[ item, … ]` inside a general rule object), `AnnotQLoad` (`Loader.step` folded over the events: the UNQUOTED name
+is bound; a list value goes through `embContainer` and is recorded from bracket to bracket), `QNameBytes` (every JSON
+string token is a key of the scanner's token automaton), `AnnotQThm` (`Lay.load_gannot`), `C02TextQ`
+(`loadSchema_gannot`, `docOut_scalar`), `C02TextQEmb` (an admissible rule set has list values only under `or` / `enum` /
+`allOf`: every other constraint constructor refuses a value that begins with `[`, and `compileNode` refuses such a
+`type`). -/
+
+/-- **the text pipeline is the closed form, EXTENDED grammar**: bare or quoted rule names (any JSON string, `\uXXXX`
+included), literal or list values, either annotation form, any layout of the grammar. For every admissible rule set
+(`okRulesE`: the class of the first part, or an `enum` rule beside at most `const`, `nullable`, `type: "enum"`) and every
+document that is one scalar token with white space around it, the whole pipeline (schema scanner model, loader model,
+constraint constructors, `compileNode`, check, JSON scanner model, validator) answers what `C02T.closed` computes from the
+pairs (DECODED name, value text) -/
+theorem C02_text_is_closed_extended (a : Ann) (ha : a.isAnn = true) (EX s1 s2 : List UInt8) (ob : GObj)
+    (s3 tl : List UInt8) (hv : GAnnValid a EX s1 s2 ob s3 tl) (hok : okRulesE EX ob.pairs = true)
+    (docTok ws0 ws1 : List UInt8) (hd : JsonScan.IsScalar (docTok.map JsonScan.classify))
+    (hw0 : JsonScan.IsWs (ws0.map JsonScan.classify)) (hw1 : JsonScan.IsWs (ws1.map JsonScan.classify)) :
+    E2E.validateText (gannText a EX s1 s2 ob s3 tl) [] (ws0 ++ (docTok ++ ws1)) = closed EX ob.pairs docTok :=
+  C02T.text_is_closed_extended a ha EX s1 s2 ob s3 tl hv hok docTok ws0 ws1 hd hw0 hw1
+
+/-- the statement left open by the third part holds -/
+theorem C02_text_is_closed_extended_full_holds : C02_text_is_closed_extended_full :=
+  fun a ha EX s1 s2 ob s3 tl hv hok docTok ws0 ws1 hd hw0 hw1 =>
+    C02_text_is_closed_extended a ha EX s1 s2 ob s3 tl hv hok docTok ws0 ws1 hd hw0 hw1
+
+/-- **C02 at text level, the `enum` class and quoted names** (SPEC form; K-C10-enumtext applies: the items are compared
+as `RulesF.ruleOK … (.enum items)` does — numbers by source text): for a schema text of the extended grammar whose rule
+set is admissible and whose EXAMPLE passes its own rules, the outcome on a scalar document is `acc` exactly when
+`RulesF.litOKFull o (specOfRules EX pairs) docTok`, for ANY oracles -/
+theorem C02_text_level_enum (o : RulesF.Oracles) (a : Ann) (ha : a.isAnn = true) (EX s1 s2 : List UInt8) (ob : GObj)
+    (s3 tl : List UInt8) (hv : GAnnValid a EX s1 s2 ob s3 tl) (hok : okRulesE EX ob.pairs = true)
+    (hex : RulesF.litOKFull o (specOfRules EX ob.pairs) EX = true)
+    (docTok ws0 ws1 : List UInt8) (hd : JsonScan.IsScalar (docTok.map JsonScan.classify))
+    (hw0 : JsonScan.IsWs (ws0.map JsonScan.classify)) (hw1 : JsonScan.IsWs (ws1.map JsonScan.classify)) :
+    E2E.validateText (gannText a EX s1 s2 ob s3 tl) [] (ws0 ++ (docTok ++ ws1))
+      = if RulesF.litOKFull o (specOfRules EX ob.pairs) docTok then .acc else .rej :=
+  C02_text_level_enum_of_closed C02_text_is_closed_extended_full_holds o a ha EX s1 s2 ob s3 tl hv hok hex docTok ws0 ws1
+    hd hw0 hw1
+
+theorem C02_text_level_enum_full_holds : C02_text_level_enum_full :=
+  C02_text_level_enum_of_closed C02_text_is_closed_extended_full_holds
+
+/-- **C02 at text level, QUOTED rule names** (literal values, the class of the first part): `"min": 1`,
+`"m\u0069n": 1` — the verdict is that of the DECODED names -/
+theorem C02_text_level_quoted (o : RulesF.Oracles) (a : Ann) (ha : a.isAnn = true) (EX s1 s2 : List UInt8) (ob : GObj)
+    (s3 tl : List UInt8) (hv : GAnnValid a EX s1 s2 ob s3 tl) (hl : ob.literalValues) (hok : okRules EX ob.pairs = true)
+    (hex : RulesF.litOKFull o (specOfRules EX ob.pairs) EX = true)
+    (docTok ws0 ws1 : List UInt8) (hd : JsonScan.IsScalar (docTok.map JsonScan.classify))
+    (hw0 : JsonScan.IsWs (ws0.map JsonScan.classify)) (hw1 : JsonScan.IsWs (ws1.map JsonScan.classify)) :
+    E2E.validateText (gannText a EX s1 s2 ob s3 tl) [] (ws0 ++ (docTok ++ ws1))
+      = if RulesF.litOKFull o (specOfRules EX ob.pairs) docTok then .acc else .rej :=
+  C02_text_level_quoted_of_closed C02_text_is_closed_extended_full_holds o a ha EX s1 s2 ob s3 tl hv hl hok hex docTok ws0
+    ws1 hd hw0 hw1
+
+theorem C02_text_level_quoted_full_holds : C02_text_level_quoted_full :=
+  C02_text_level_quoted_of_closed C02_text_is_closed_extended_full_holds
+
+/-- **quoting a rule name changes nothing**: two schema texts on the same EXAMPLE whose rule objects have the same pairs
+(decoded name, value text) — quoted / escaped / bare names, either form, any layout — get the same outcome on every scalar
+document -/
+theorem C02_text_quoting_invariant (a a' : Ann) (ha : a.isAnn = true) (ha' : a'.isAnn = true)
+    (EX s1 s2 s1' s2' : List UInt8) (ob ob' : GObj) (s3 tl s3' tl' : List UInt8)
+    (hv : GAnnValid a EX s1 s2 ob s3 tl) (hv' : GAnnValid a' EX s1' s2' ob' s3' tl')
+    (hsame : ob.pairs = ob'.pairs) (hok : okRulesE EX ob.pairs = true)
+    (docTok ws0 ws1 : List UInt8) (hd : JsonScan.IsScalar (docTok.map JsonScan.classify))
+    (hw0 : JsonScan.IsWs (ws0.map JsonScan.classify)) (hw1 : JsonScan.IsWs (ws1.map JsonScan.classify)) :
+    E2E.validateText (gannText a EX s1 s2 ob s3 tl) [] (ws0 ++ (docTok ++ ws1))
+      = E2E.validateText (gannText a' EX s1' s2' ob' s3' tl') [] (ws0 ++ (docTok ++ ws1)) := by
+  rw [C02_text_is_closed_extended a ha EX s1 s2 ob s3 tl hv hok docTok ws0 ws1 hd hw0 hw1,
+    C02_text_is_closed_extended a' ha' EX s1' s2' ob' s3' tl' hv' (hsame ▸ hok) docTok ws0 ws1 hd hw0 hw1, hsame]
+
+/-- a list value in an admissible rule set sits under `or` / `enum` / `allOf` (under another name the loader answers
+error 802): what makes the extended statement hold without a further hypothesis -/
+theorem C02_list_values_under_emb_names (EX : List UInt8) (ob : GObj) (hok : okRulesE EX ob.pairs = true) : ob.listsEmb :=
+  C02T.listsEmb_of_okRulesE EX ob hok
+
+/-! Non-vacuity. `1 // {"min": 0, "max" :5, }` against ` 4⏎`: accepted, by the spec node of the decoded names;
+`"b" // {"enum": ["a", "b"], const: false}` against ` "b"⏎`: accepted (the escaped spelling of an item is the
+same string), against ` "c"⏎`: rejected. -/
+
+theorem exQ_ok : okRules Lay.Ex.one Lay.Ex.gobQ.pairs = true := by
+  rw [Lay.Ex.gsame_pairs]; decide +kernel
+
+example : E2E.validateText (gannText .inline Lay.Ex.one [32] [32] Lay.Ex.gobQ [] []) [] ([32] ++ ([52] ++ [10])) = .acc := by
+  have hex : RulesF.litOKFull RulesF.noOracle (specOfRules Lay.Ex.one Lay.Ex.gobQ.pairs) Lay.Ex.one = true := by
+    rw [Lay.Ex.gsame_pairs]; decide +kernel
+  rw [C02_text_level_quoted RulesF.noOracle .inline rfl Lay.Ex.one [32] [32] Lay.Ex.gobQ [] [] Lay.Ex.gannQ_valid
+    Lay.Ex.gobQ_lits exQ_ok hex [52] [32] [10] ex_doc4
+    (by simp [JsonScan.IsWs, JsonScan.classify, JsonScan.Cls.isWs])
+    (by simp [JsonScan.IsWs, JsonScan.classify, JsonScan.Cls.isWs])]
+  have : RulesF.litOKFull RulesF.noOracle (specOfRules Lay.Ex.one Lay.Ex.gobQ.pairs) [52] = true := by
+    rw [Lay.Ex.gsame_pairs]; decide +kernel
+  simp [this]
+
+theorem exE_ok : okRulesE Lay.Ex.sB Lay.Ex.gobE.pairs = true := by
+  rw [Lay.Ex.gobE_pairs]; decide +kernel
+
+theorem ex_docS (c : UInt8) (hc : c = 98 ∨ c = 99) :
+    JsonScan.IsScalar (([34, c, 34] : List UInt8).map JsonScan.classify) := by
+  rcases hc with rfl | rfl <;> exact ⟨.quote, _, .inString, true, .endValue, rfl, rfl, rfl, rfl⟩
+
+example : E2E.validateText (gannText .inline Lay.Ex.sB [32] [32] Lay.Ex.gobE [] []) [] ([32] ++ ([34, 98, 34] ++ [10])) = .acc ∧
+    E2E.validateText (gannText .inline Lay.Ex.sB [32] [32] Lay.Ex.gobE [] []) [] ([32] ++ ([34, 99, 34] ++ [10])) = .rej := by
+  have hex : RulesF.litOKFull RulesF.noOracle (specOfRules Lay.Ex.sB Lay.Ex.gobE.pairs) Lay.Ex.sB = true := by
+    rw [Lay.Ex.gobE_pairs]; decide +kernel
+  have hw0 : JsonScan.IsWs (([32] : List UInt8).map JsonScan.classify) := by
+    simp [JsonScan.IsWs, JsonScan.classify, JsonScan.Cls.isWs]
+  have hw1 : JsonScan.IsWs (([10] : List UInt8).map JsonScan.classify) := by
+    simp [JsonScan.IsWs, JsonScan.classify, JsonScan.Cls.isWs]
+  rw [C02_text_level_enum RulesF.noOracle .inline rfl Lay.Ex.sB [32] [32] Lay.Ex.gobE [] [] Lay.Ex.gannE_valid exE_ok hex
+      [34, 98, 34] [32] [10] (ex_docS 98 (Or.inl rfl)) hw0 hw1,
+    C02_text_level_enum RulesF.noOracle .inline rfl Lay.Ex.sB [32] [32] Lay.Ex.gobE [] [] Lay.Ex.gannE_valid exE_ok hex
+      [34, 99, 34] [32] [10] (ex_docS 99 (Or.inr rfl)) hw0 hw1]
+  have h1 : RulesF.litOKFull RulesF.noOracle (specOfRules Lay.Ex.sB Lay.Ex.gobE.pairs) [34, 98, 34] = true := by
+    rw [Lay.Ex.gobE_pairs]; decide +kernel
+  have h2 : RulesF.litOKFull RulesF.noOracle (specOfRules Lay.Ex.sB Lay.Ex.gobE.pairs) [34, 99, 34] = false := by
+    rw [Lay.Ex.gobE_pairs]; decide +kernel
+  simp [h1, h2]
+
+/-- … and the quoted text gets the verdict of the bare multi-line text on every scalar document -/
+example (docTok ws0 ws1 : List UInt8) (hd : JsonScan.IsScalar (docTok.map JsonScan.classify))
+    (hw0 : JsonScan.IsWs (ws0.map JsonScan.classify)) (hw1 : JsonScan.IsWs (ws1.map JsonScan.classify)) :
+    E2E.validateText (gannText .inline Lay.Ex.one [32] [32] Lay.Ex.gobQ [] []) [] (ws0 ++ (docTok ++ ws1))
+      = E2E.validateText (gannText .multi Lay.Ex.one [32] [10, 32] Lay.Ex.gobB [10] [42, 47, 10]) [] (ws0 ++ (docTok ++ ws1)) :=
+  C02_text_quoting_invariant .inline .multi rfl rfl Lay.Ex.one [32] [32] [32] [10, 32] Lay.Ex.gobQ Lay.Ex.gobB [] [] [10]
+    [42, 47, 10] Lay.Ex.gannQ_valid Lay.Ex.gannB_valid Lay.Ex.gsame_pairs (C02T.okRulesE_of_okRules exQ_ok) docTok ws0 ws1
+    hd hw0 hw1
+
+end Props.C02
+
+namespace Props.C02
+open Lay SchemaScan C02T
+
+/-! ## the items of a list value, as the constraint constructors read them back (module `ScalarItemsBridge`)
+
+The loader keeps the text of a list value from `[` to `]`; `constraint.NewEnum` / the `or` loader scan that text AGAIN with the
+JSON scanner (`Compile.scalarItems`, the JSON scanner model). The schema scanner's token automaton is the JSON scanner's
+without exponents, the blanks of an annotation are JSON white space: the second reading delivers exactly the written item
+tokens, in order. -/
+
+/-- **a scalar token of the schema scanner is a scalar token of the JSON scanner** (bytes) -/
+theorem C02_schema_scalar_is_json_scalar (tok : List UInt8) (h : SchemaScan.IsScalar (tok.map SchemaScan.classify)) :
+    JsonScan.IsScalar (tok.map JsonScan.classify) := by
+  rw [map_classify_toJ]; exact isScalar_toJ h
+
+/-- **the `enum` items are the written item tokens**: for every list value of the grammar — any blanks (line breaks in the
+multi-line form) around the items — `scalarItems` of the recorded text is the list of the item tokens, so the spec reads the
+rule `enum: [t1, …, tn]` as `RulesF.RawRule.enum [t1, …, tn]` -/
+theorem C02_enum_items_as_written (a : Ann) (b0 : List UInt8) (items : List GItem) (hv : (GVal.list b0 items).Valid a) :
+    Compile.scalarItems (GVal.list b0 items).spell = some (items.map (·.tok)) ∧
+    rawOf (Compile.sb "enum", (GVal.list b0 items).spell) = some (.enum (items.map (·.tok))) := by
+  have h := scalarItems_list a b0 items hv
+  refine ⟨h, ?_⟩
+  unfold rawOf
+  simp only []
+  tag_rw
+  rw [show tagOf (Compile.sb "enum") = .enum from by decide +kernel]
+  simp [h]
+
+/-! Non-vacuity: the list of `"b" // {"enum": ["a", "b"], const: false}` -/
+example : Compile.scalarItems [91, 34, 97, 34, 44, 32, 34, 98, 34, 93] = some [Lay.Ex.sA, Lay.Ex.sB] :=
+  (C02_enum_items_as_written .inline [] [⟨[], Lay.Ex.sA, []⟩, ⟨[32], Lay.Ex.sB, []⟩] Lay.Ex.gobE_valid.1.1.2.2.2.1).1
 
 end Props.C02
